@@ -192,7 +192,7 @@ def toMsgAddress (a : AccountID) : MsgAddress := .std Option.none (a.wc.setWidth
 /-- the first 4 bytes of the address replaced by the anycast rewrite (big-endian uint32) -/
 def rewriteAddr (addr : List Byte) (depth pfx : BitVec 32) : List Byte :=
   let p : BitVec 32 := addr.getD 0 0 ++ addr.getD 1 0 ++ addr.getD 2 0 ++ addr.getD 3 0
-  let q := Shard.anycastRewrite p depth pfx
+  let q := Shard.anycastRewriteExec p depth pfx
   [q.extractLsb' 24 8, q.extractLsb' 16 8, q.extractLsb' 8 8, q.extractLsb' 0 8] ++ addr.drop 4
 
 /-- ton.AccountIDFromTlb: `ok none` is the Go `(nil, nil)` -/
